@@ -2,7 +2,7 @@
 their JSON renderings in the spellings hdwallet documents."""
 import json
 
-from .gen import boundary_u256, rand_bytes
+from .gen import boundary_u256, rand_bytes, SPECIAL_ADDRESSES
 from .ref import tx as reftx
 
 LEGACY, T2930, T1559 = reftx.LEGACY, reftx.T2930, reftx.T1559
@@ -96,7 +96,7 @@ def rand_chain_id(rng):
 def rand_tx(rng, kind=None, big=False):
     kind = kind or rng.choice(KINDS)
     tx = {"kind": kind, "nonce": boundary_u256(rng), "gas": boundary_u256(rng), "value": boundary_u256(rng),
-          "to": None if rng.random() < 0.3 else rand_bytes(rng, 20), "data": rand_data(rng, big)}
+          "to": None if rng.random() < 0.3 else (rng.choice(SPECIAL_ADDRESSES) if rng.random() < 0.12 else rand_bytes(rng, 20)), "data": rand_data(rng, big)}
     if rng.random() < 0.5:
         # realistic small values
         tx["nonce"] = rng.randrange(0, 1000)
@@ -124,7 +124,7 @@ def rand_tx(rng, kind=None, big=False):
     if tx["kind"] != LEGACY and rng.random() < 0.2:
         # entries that coincide with other parts of the transaction: the recipient itself, the zero address, with and without keys
         al = list(tx["accessList"])
-        a = tx["to"] if (tx.get("to") is not None and rng.random() < 0.7) else bytes(20)
+        a = tx["to"] if (tx.get("to") is not None and rng.random() < 0.5) else rng.choice(SPECIAL_ADDRESSES)
         keys = [] if rng.random() < 0.6 else [a.rjust(32, b"\x00")] + ([rand_bytes(rng, 32)] if rng.random() < 0.5 else [])
         al.insert(rng.randrange(len(al) + 1), (a, keys))
         if rng.random() < 0.3:
